@@ -124,6 +124,16 @@ def check_params(cls, C, d):
     if ref_err is None and not cfg_equal(o.configuration, ref):
         return Failure("configuration-differs-from-Config(**d)", params=d,
                        got=type(o.configuration).__name__, expected=type(ref).__name__)
+    # the same on a verbose instance (debug=True; print is a no-op here)
+    od = cls(debug=True)
+    try:
+        od.set_config_parameters(dict(d))
+        errd = None
+    except Exception as e:
+        errd = e
+    if kind(ref_err) != kind(errd) or (ref_err is None and not cfg_equal(od.configuration, ref)):
+        return Failure("set_config_parameters-on-a-debug-instance-disagrees-with-the-config-class", params=d,
+                       config_class=kind(ref_err), set_config_parameters=kind(errd))
     # the same on an instance that already holds a configuration (constructed with one / configured before)
     o3 = cls(C(**test_config(cls)))
     try:
